@@ -439,13 +439,13 @@ Qed.
 
 (* ------------------------------------------------------------------ the flag vs the two oracles *)
 Lemma known_unflagged ops : forall t rej obs,
-  flagged_from t rej ops obs = false ->
+  flag_from t rej ops obs = false ->
   oracle_known t rej ops obs = oracle_hist t ops obs.
 Proof.
   induction ops as [|o ops IH]; intros t rej obs H.
   - destruct obs; reflexivity.
   - destruct obs as [|b obs]; [reflexivity|].
-    cbn [flagged_from oracle_known oracle_hist] in *.
+    cbn [flag_from oracle_known oracle_hist] in *.
     apply orb_false_iff in H as [H1 H2].
     rewrite H1, orb_false_r. now rewrite IH.
 Qed.
@@ -521,31 +521,37 @@ Proof.
     destruct (digits_val a =? 0) eqn:Z; [apply N.eqb_eq in Z; apply N.leb_le in Hp1; lia|reflexivity].
 Qed.
 
-Lemma want_facts w : okword w = true -> usable w = true -> has_char SP w = false ->
-  exists ep, parse_line w = Some ep /\ addr_of (first_word w) = Some ep /\ okline0 w = true
-             /\ first_word w = w /\ w <> DEFAULTW /\ w <> ZERO.
+Lemma okline_parts0 l : okline l = true -> okline0 l = true /\ l <> DEFAULTW.
 Proof.
-  intros Hok Hu Hsp. unfold has_char in Hsp. pose proof (first_word_id w Hsp) as Hfw.
-  unfold usable in Hu. rewrite Hfw in *.
-  destruct (addr_of w) as [ep|] eqn:Ha; [|discriminate].
-  assert (w <> ZERO) as Hz by (intros ->; discriminate).
-  assert (w <> DEFAULTW) as Hd by (intros ->; discriminate).
-  exists ep. repeat split; auto.
-  - now rewrite parse_word_spec.
-  - now apply word_line.
+  unfold okline. intros H. apply andb_true_iff in H as [H1 H2]. split; [exact H1|].
+  now apply beqb_neq, negb_true_iff.
 Qed.
+
+(* a request: a line of the envelope whose first word is usable *)
+Lemma want_facts r : okline0 r = true -> usable r = true ->
+  exists ep, parse_line r = Some ep /\ addr_of (first_word r) = Some ep /\ first_word r <> ZERO.
+Proof.
+  intros Hok Hu. unfold usable in Hu.
+  destruct (addr_of (first_word r)) as [ep|] eqn:Ha; [|discriminate].
+  assert (first_word r <> ZERO) as Hz by (intros E; rewrite E in Ha; discriminate).
+  exists ep. split; [|split; auto]. now rewrite parse_line_spec.
+Qed.
+
+Lemma usable_not_default r : usable r = true -> r <> DEFAULTW.
+Proof. intros H ->. discriminate. Qed.
 
 Lemma new_facts o : wf_op o = true ->
   exists ep, parse_line (new_line o) = Some ep /\ addr_of (first_word (new_line o)) = Some ep
-             /\ okline0 (new_line o) = true /\ first_word (new_line o) = new_line o
-             /\ new_line o <> DEFAULTW /\ new_line o <> ZERO.
+             /\ okline0 (new_line o) = true /\ new_line o <> DEFAULTW.
 Proof.
   unfold wf_op, new_line. intros H. apply andb_true_iff in H as [H _].
   apply andb_true_iff in H as [H Hp]. apply andb_true_iff in H as [Hw Hc].
   destruct (o_want o) as [w|].
-  - apply andb_true_iff in Hw as [Hw Hs]. apply andb_true_iff in Hw as [Hok Hu].
-    apply negb_true_iff in Hs. now apply want_facts.
-  - destruct (avail_word _ Hc Hp) as (A & B & C). now apply want_facts.
+  - apply andb_true_iff in Hw as [Hok Hu]. apply andb_true_iff in Hok as [Hok _].
+    destruct (want_facts w Hok Hu) as (ep & A & B & _). exists ep. auto using usable_not_default.
+  - destruct (avail_word _ Hc Hp) as (A & B & C).
+    pose proof (word_line _ A) as Hl.
+    destruct (want_facts _ Hl B) as (ep & P1 & P2 & _). exists ep. auto using usable_not_default.
 Qed.
 
 (* ------------------------------------------------------------------ _create_socks_endpoint *)
@@ -576,12 +582,45 @@ Proof.
   - intros (w & Hw & Hs & Hp). exists w. split; [exact Hw|]. rewrite Hs, Hp. now left.
 Qed.
 
+Lemma exact_word x e : has_char SP x = false -> exact x e = beqb x (first_word e).
+Proof.
+  intros H. unfold exact. destruct (beqb x e) eqn:E; [|reflexivity].
+  apply beqb_eq in E. subst e. unfold has_char in H. now rewrite (first_word_id x H), beqb_refl.
+Qed.
+
+Lemma exact_line x e : has_char SP x = true -> exact x e = beqb x e.
+Proof.
+  intros H. unfold exact. destruct (beqb x (first_word e)) eqn:E; [|apply orb_false_r].
+  apply beqb_eq in E. subst x. unfold has_char in H. now rewrite first_word_no_sp in H.
+Qed.
+
+Lemma exact_first x e : exact x e = true -> first_word x = first_word e.
+Proof.
+  unfold exact. intros H. apply orb_true_iff in H as [H|H]; apply beqb_eq in H; subst x; [reflexivity|].
+  apply first_word_idem.
+Qed.
+
+(* the endpoint of an entry that is asked for is also one "for the same port" *)
+Lemma usable_widen want E ep :
+  In ep (usable_eps want E) -> In ep (usable_eps (option_map first_word want) E).
+Proof.
+  rewrite !usable_eps_In. intros (e & He & Hu). exists e. split; [exact He|].
+  destruct want as [x|]; [|exact Hu]. cbn [option_map]. unfold usable_for in *.
+  destruct (exact x e) eqn:X; [|discriminate]. apply exact_first in X.
+  unfold exact. now rewrite X, beqb_refl, orb_true_r.
+Qed.
+
+(* the code looks for the request's first word among the first words of the lines *)
 Lemma usable_for_sel want e :
-  usable_for want e = if sel want (first_word e) then addr_of (first_word e) else None.
-Proof. unfold usable_for, sel. destruct want as [x|]; [rewrite (beqb_sym x)|]; reflexivity. Qed.
+  usable_for (option_map first_word want) e
+  = if sel want (first_word e) then addr_of (first_word e) else None.
+Proof.
+  unfold usable_for, sel. destruct want as [x|]; [|reflexivity]. cbn [option_map].
+  rewrite exact_word by apply first_word_no_sp. now rewrite beqb_sym.
+Qed.
 
 Lemma cand_sound want E : (forall e, In e E -> okline0 e = true) ->
-  forall ep, In ep (candidates want E) -> In ep (usable_eps want E).
+  forall ep, In ep (candidates want E) -> In ep (usable_eps (option_map first_word want) E).
 Proof.
   intros Hok ep H. unfold candidates in H.
   assert (exists w, In w (map first_word E) /\ w <> ZERO /\ sel want w = true /\ parse_line w = Some ep)
@@ -594,8 +633,9 @@ Proof.
   rewrite <- parse_word_spec; auto. apply okline0_parts. now apply Hok.
 Qed.
 
+(* nothing found: no usable entry for the request's port at all, a fortiori none that is the one asked for *)
 Lemma cand_complete want E : (forall e, In e E -> okline0 e = true) ->
-  candidates want E = [] -> usable_eps want E = [].
+  candidates want E = [] -> usable_eps (option_map first_word want) E = [].
 Proof.
   intros Hok H. apply usable_eps_nil. intros e He.
   rewrite usable_for_sel. destruct (sel want (first_word e)) eqn:Hs; [|reflexivity].
@@ -618,6 +658,13 @@ Proof.
     destruct (isnil (parsed want (filter is_tcp (map first_word E)))) eqn:N.
     + apply isnil_true in N. rewrite N in Hin. contradiction.
     + rewrite H in Hin. contradiction.
+Qed.
+
+Lemma widen_nil want E : usable_eps (option_map first_word want) E = [] -> usable_eps want E = [].
+Proof.
+  intros H. destruct (usable_eps want E) as [|ep l] eqn:U; [reflexivity|].
+  assert (In ep (usable_eps (option_map first_word want) E)) as Hin by (apply usable_widen; rewrite U; now left).
+  rewrite H in Hin. contradiction.
 Qed.
 
 Lemma queries_facts t :
@@ -674,7 +721,7 @@ Qed.
 Lemma usable_weaken want E ep : In ep (usable_eps want E) -> In ep (usable_eps None E).
 Proof.
   rewrite !usable_eps_In. intros (e & He & Hu). exists e. split; [exact He|].
-  rewrite usable_for_sel in *. destruct (sel want (first_word e)); [exact Hu|discriminate].
+  unfold usable_for in *. destruct want as [x|]; [|exact Hu]. destruct (exact x e); [exact Hu|discriminate].
 Qed.
 
 Lemma pick_in pick c cs : In (if existsb (ep_eqb pick) (c :: cs) then pick else c) (c :: cs).
@@ -691,7 +738,7 @@ Proof.
   destruct (queries_facts t) as [Q1 Q2].
   unfold choose. rewrite HL.
   destruct (candidates (o_want o) (entries t)) as [|c cs] eqn:C.
-  - pose proof (cand_complete _ _ Hok C) as HU.
+  - pose proof (widen_nil _ _ (cand_complete _ _ Hok C)) as HU.
     destruct (new_facts o Hwf) as (ep & Hp & Ha & _).
     change (match o_want o with Some w => w | None => o_avail o end) with (new_line o).
     assert (forall r, (if o_accept o then exists ep, r = OEp ep /\ addr_of (first_word (new_line o)) = Some ep
@@ -718,7 +765,7 @@ Proof.
   assert (Hok : forall e, In e (entries t) -> okline0 e = true) by apply Ht.
   unfold choose. rewrite HL.
   destruct (candidates (o_want o) (entries t)) as [|c cs] eqn:C.
-  - destruct (new_facts o Hwf) as (ep & Hp & Ha & Hline & Hfw & Hnd & Hnz).
+  - destruct (new_facts o Hwf) as (ep & Hp & Ha & Hline & Hnd).
     change (match o_want o with Some w => w | None => o_avail o end) with (new_line o).
     set (lines' := filter keep_line (entries t) ++ [new_line o]).
     assert (Hnew : In ep (usable_eps None lines')).
@@ -745,7 +792,7 @@ Proof.
   - cbn [fst snd]. unfold next_tor. cbn [sent]. rewrite Q2.
     split; [reflexivity|]. split; [exact Ht|]. split; [reflexivity|]. split; [auto|].
     intros x Hx. cbn [out] in Hx. injection Hx as <-.
-    apply usable_weaken with (want := o_want o). apply cand_sound; auto. rewrite C. apply pick_in.
+    apply usable_weaken with (want := option_map first_word (o_want o)). apply cand_sound; auto. rewrite C. apply pick_in.
 Qed.
 
 (* ------------------------------------------------------------------ one call of a history *)
@@ -811,7 +858,7 @@ Proof.
     destruct (m_cache st) as [e|] eqn:Ca.
     + unfold quiet. cbn [fst snd]. split; [|split; [reflexivity|split; [|apply is_prefix_refl]]].
       * unfold step_ok. cbn [sent out forallb filter andb]. rewrite (Hwant eq_refl).
-        apply existsb_ep_In. now apply Hc.
+        cbn [option_map]. apply existsb_ep_In. now apply Hc.
       * rewrite rejected_quiet, orb_false_r. split; [discriminate|]. intros _.
         split; [exact Ht|]. split; [|discriminate]. intros _. split; [exact Hl|]. rewrite Ca. exact Hc.
     + destruct (choose (m_tor st) None (o_avail o) (o_accept o) pick) as [b t'] eqn:Ch.
@@ -825,8 +872,8 @@ Qed.
 Lemma step_ok_quiet t o r :
   step_ok t o {| sent := []; out := r |}
   = match r with
-    | OEp e => existsb (ep_eqb e) (usable_eps (o_want o) (entries t))
-    | OErr _ => isnil (usable_eps (o_want o) (entries t)) && may_refuse o
+    | OEp e => existsb (ep_eqb e) (usable_eps (option_map first_word (o_want o)) (entries t))
+    | OErr _ => (isnil (usable_eps (o_want o) (entries t)) && may_refuse o) || port_only o
     end.
 Proof. reflexivity. Qed.
 
@@ -868,18 +915,17 @@ Proof.
   intros [Hok _] Hcfg Hapi Hw. unfold cfg_first. rewrite Hcfg, (first_usable_spec _ Hok).
   assert (may_refuse o = true) as Hmr by (unfold may_refuse; rewrite Hw; destruct (o_api o); try discriminate; reflexivity).
   destruct (usable_eps None (entries (m_tor st))) as [|ep U] eqn:E; cbn [hd_error fst quiet];
-    rewrite step_ok_quiet, Hw, E.
+    rewrite step_ok_quiet, Hw; cbn [option_map]; rewrite E.
   - now rewrite Hmr.
   - cbn [existsb]. now rewrite ep_eqb_refl.
 Qed.
 
 Lemma wf_want o w : wf_op o = true -> o_want o = Some w ->
-  okword w = true /\ usable w = true /\ has_char SP w = false.
+  okline0 w = true /\ usable w = true /\ w <> DEFAULTW.
 Proof.
   unfold wf_op. intros H W. rewrite W in H. apply andb_true_iff in H as [H _].
   apply andb_true_iff in H as [H _]. apply andb_true_iff in H as [H _].
-  apply andb_true_iff in H as [H Hs]. apply andb_true_iff in H as [H1 H2].
-  apply negb_true_iff in Hs. auto.
+  apply andb_true_iff in H as [H1 H2]. apply okline_parts0 in H1 as [A B]. auto.
 Qed.
 
 Lemma inv_cfg_same st : tor_ok (m_tor st) -> m_cfg st = entries (m_tor st) -> inv true false st.
@@ -909,45 +955,48 @@ Proof.
   - (* TorConfig.socks_endpoint *)
     destruct (o_want o) as [p|] eqn:W; [|now apply Hfirst].
     destruct (wf_want o p Hwf W) as (Hp1 & Hp2 & Hp3).
-    destruct (want_facts p Hp1 Hp2 Hp3) as (ep & Pp & Pa & _ & Pfw & _ & Pz). rewrite Pfw in Pa.
+    destruct (want_facts p Hp1 Hp2) as (ep & Pp & Pa & Pz).
     assert (Hq : forall r, inv true (rejected o (fst (quiet st r))) (snd (quiet st r)) /\
                            is_prefix (listeners (m_tor st)) (listeners (m_tor (snd (quiet st r)))) = true).
     { intros r. cbn [fst snd quiet]. rewrite rejected_quiet. split; [exact Hsame|apply is_prefix_refl]. }
     assert (Hmr : may_refuse o = true) by (unfold may_refuse; now rewrite A).
     rewrite Hc. destruct (entries (m_tor st)) as [|l0 rest0] eqn:E.
     { split; [|apply Hq]. cbn [fst quiet]. rewrite step_ok_quiet, E, W, Hmr. reflexivity. }
-    rewrite <- E in *. rewrite Hp3.
+    rewrite <- E in *.
+    destruct (has_char SP p) eqn:Sp.
+    { (* a request with option words: refused, as the accessor takes a port *)
+      split; [|apply Hq]. cbn [fst quiet]. rewrite step_ok_quiet.
+      assert (port_only o = true) as -> by (unfold port_only; now rewrite A, W).
+      apply orb_true_r. }
+    assert (Pfw : first_word p = p) by (apply first_word_id; exact Sp). rewrite Pfw in Pa.
     destruct (find (fun l => beqb (first_word l) p) (entries (m_tor st))) as [l|] eqn:Fd;
       (split; [|apply Hq]); cbn [fst quiet].
     + apply find_some in Fd as [Hin Hfw]. apply beqb_eq in Hfw.
-      assert (first_word l <> ZERO) as Z by now rewrite Hfw.
+      assert (first_word l <> ZERO) as Z by (rewrite Hfw; now rewrite Pfw in Pz).
       unfold parse_outcome. rewrite (parse_line_spec l (Hok l Hin) Z), Hfw, Pa.
-      rewrite step_ok_quiet, W. apply existsb_ep_In, usable_eps_In.
-      exists l. split; [exact Hin|]. unfold usable_for. now rewrite Hfw, beqb_refl.
+      rewrite step_ok_quiet, W. apply existsb_ep_In, usable_widen, usable_eps_In.
+      exists l. split; [exact Hin|]. unfold usable_for, exact. now rewrite Hfw, beqb_refl, orb_true_r.
     + rewrite step_ok_quiet, W, Hmr.
       assert (usable_eps (Some p) (entries (m_tor st)) = []) as ->; [|reflexivity].
       apply usable_eps_nil. intros e He. unfold usable_for.
-      rewrite beqb_sym, (find_none _ _ Fd e He). reflexivity.
+      rewrite (exact_word p e Sp), beqb_sym, (find_none _ _ Fd e He). reflexivity.
   - (* TorConfig.create_socks_endpoint *)
     destruct (o_want o) as [w|] eqn:W; [|now apply Hfirst].
-    destruct (wf_want o w Hwf W) as (Hp1 & Hp2 & Hp3).
-    destruct (want_facts w Hp1 Hp2 Hp3) as (ep & Pp & Pa & Pline & Pfw & Pd & Pz).
+    destruct (wf_want o w Hwf W) as (Pline & Hp2 & Pd).
+    destruct (want_facts w Pline Hp2) as (ep & Pp & Pa & Pz).
     rewrite Hc.
-    destruct (existsb (fun l => beqb w l || beqb w (first_word l)) (entries (m_tor st))) eqn:X.
+    change (fun l => beqb w l || beqb w (first_word l)) with (exact w).
+    destruct (existsb (exact w) (entries (m_tor st))) eqn:X.
     + cbn [fst snd quiet]. rewrite rejected_quiet. split; [|split; [exact Hsame|apply is_prefix_refl]].
       apply existsb_exists in X as (l & Hin & Hg).
-      assert (first_word l = w) as Hfw.
-      { apply orb_true_iff in Hg as [Hg|Hg]; apply beqb_eq in Hg; [now subst l|now symmetry]. }
       unfold parse_outcome. rewrite Pp. rewrite step_ok_quiet, W.
-      apply existsb_ep_In, usable_eps_In. exists l. split; [exact Hin|].
-      unfold usable_for. rewrite Hfw, beqb_refl. now rewrite Pfw in Pa.
+      apply existsb_ep_In, usable_widen, usable_eps_In. exists l. split; [exact Hin|].
+      unfold usable_for. rewrite Hg. now rewrite <- (exact_first w l Hg).
     + assert (HU : usable_eps (o_want o) (entries (m_tor st)) = []).
       { rewrite W. apply usable_eps_nil. intros e He. unfold usable_for.
-        assert (beqb w e || beqb w (first_word e) = false) as Hg.
-        { destruct (beqb w e || beqb w (first_word e)) eqn:G; [|reflexivity].
-          assert (existsb (fun l => beqb w l || beqb w (first_word l)) (entries (m_tor st)) = true) as C
-            by (apply existsb_exists; exists e; auto). congruence. }
-        apply orb_false_iff in Hg as [_ Hg]. now rewrite Hg. }
+        destruct (exact w e) eqn:G; [|reflexivity].
+        assert (existsb (exact w) (entries (m_tor st)) = true) as C
+          by (apply existsb_exists; exists e; auto). congruence. }
       assert (Hnew : new_line o = w) by (unfold new_line; now rewrite W).
       set (s := setconf_line cfg_key (entries (m_tor st) ++ [w])).
       assert (Hstep : forall r,
@@ -1015,10 +1064,10 @@ Proof.
     destruct (step st o (hd no_pick picks)) as [b st'] eqn:S. cbn [snd].
     cbn [oracle_known final_tor].
     assert (Hgoal : forall rej',
-      (step_ok (m_tor st) o b || f4 rej o) = true ->
+      (step_ok (m_tor st) o b || in_class rej o) = true ->
       next_tor (m_tor st) o b = m_tor st' -> inv cfgmode rej' st' -> rej' = (rej || rejected o b) ->
       is_prefix (listeners (m_tor st)) (listeners (m_tor st')) = true ->
-      (step_ok (m_tor st) o b || f4 rej o)
+      (step_ok (m_tor st) o b || in_class rej o)
         && oracle_known (next_tor (m_tor st) o b) (rej || rejected o b) ops (run_from st' ops (tl picks)) = true /\
       is_prefix (listeners (m_tor st)) (listeners (m_tor (end_state st' ops (tl picks)))) = true /\
       final_tor (next_tor (m_tor st) o b) ops (run_from st' ops (tl picks)) = m_tor (end_state st' ops (tl picks))).
@@ -1032,7 +1081,7 @@ Proof.
         pose proof (step_config_rej st o (hd no_pick picks) I Hm) as [R1 R2]. rewrite S in R1, R2. cbn [snd] in *.
         pose proof (step_sync_cfg st o (hd no_pick picks) Hm) as Sy. rewrite S in Sy. cbn [fst snd] in Sy.
         apply (Hgoal true); auto.
-        unfold f4. rewrite Hm. apply orb_true_r.
+        unfold in_class, f4. rewrite Hm. cbn. apply orb_true_r.
       * pose proof (step_config st o (hd no_pick picks) I Hwf Hm) as C. cbv zeta in C. rewrite S in C.
         cbn [fst snd] in C. destruct C as (C1 & C2 & C3).
         pose proof (step_sync_cfg st o (hd no_pick picks) Hm) as Sy. rewrite S in Sy. cbn [fst snd] in Sy.
@@ -1139,16 +1188,18 @@ Proof.
   intros [Hok _]. unfold listeners. apply filter_ext_in. intros e He. now apply keep_is_listener, Hok.
 Qed.
 
+(* [same_port want]: the request reduced to its first word, i.e. "any usable entry for that port" *)
 Theorem create_cases t o pick : tor_ok t -> dflt_le1 t -> wf_op o = true ->
   let r := choose t (o_want o) (o_avail o) (o_accept o) pick in
+  let same_port := option_map first_word (o_want o) in
   (exists e, sent (fst r) = queries t /\ out (fst r) = OEp e
-             /\ In e (usable_eps (o_want o) (entries t)) /\ snd r = t)
+             /\ In e (usable_eps same_port (entries t)) /\ snd r = t)
   \/
-  (usable_eps (o_want o) (entries t) = [] /\
+  (usable_eps same_port (entries t) = [] /\ usable_eps (o_want o) (entries t) = [] /\
    exists s, sent (fst r) = queries t ++ [s] /\ is_setconf s = true /\
      decode_setconf s = Some (map (fun v => (tx key_setconf, v)) (listeners t ++ [new_line o])) /\
      (o_accept o = true ->
-        exists e, out (fst r) = OEp e /\ addr_of (new_line o) = Some e
+        exists e, out (fst r) = OEp e /\ addr_of (first_word (new_line o)) = Some e
                   /\ snd r = {| sp := RVals (listeners t ++ [new_line o]); dflt := dflt t |}) /\
      (o_accept o = false -> (exists n, out (fst r) = OErr n) /\ snd r = t)).
 Proof.
@@ -1157,10 +1208,10 @@ Proof.
   assert (Hok : forall e, In e (entries t) -> okline0 e = true) by apply Ht.
   unfold choose. rewrite HL.
   destruct (candidates (o_want o) (entries t)) as [|c cs] eqn:C.
-  - right. split; [now apply cand_complete|].
-    destruct (new_facts o Hwf) as (ep & Hp & Ha & _ & Hfw & _).
+  - right. pose proof (cand_complete _ _ Hok C) as HU. split; [exact HU|]. split; [now apply widen_nil|].
+    destruct (new_facts o Hwf) as (ep & Hp & Ha & _).
     change (match o_want o with Some w => w | None => o_avail o end) with (new_line o).
-    rewrite (keep_listeners t Ht). rewrite Hfw in Ha.
+    rewrite (keep_listeners t Ht).
     exists (setconf_line (tx key_setconf) (listeners t ++ [new_line o])).
     destruct (o_accept o); cbn [fst snd sent out].
     + split; [reflexivity|]. split; [apply setconf_line_is|]. split; [now apply decode_roundtrip|].
@@ -1197,6 +1248,24 @@ Definition refutes (t : tor) (ops : list op) : Prop :=
 
 Lemma f4_refuted : refutes w_f4_tor w_f4_ops.
 Proof. repeat split; vm_compute; reflexivity. Qed.
+
+(* regression anchor of the repaired C18-F5 (a76a42b): _create_socks_endpoint asked for a whole line
+   with option words that Tor reports, byte for byte, uses that line: only the GETCONF is written *)
+Definition w_f5_tor : tor := {| sp := RVals [tx "9150 IPv6Traffic PreferIPv6"; tx "9155"]; dflt := [] |}.
+Definition w_f5_ops : list op := [mkop ACreate (Some (tx "9150 IPv6Traffic PreferIPv6")) true].
+
+Lemma f5_now_accepted :
+  wf_hist w_f5_tor w_f5_ops = true /\
+  run w_f5_tor w_f5_ops [] = [{| sent := [tx "GETCONF SOCKSPort"]; out := OEp (EpTcp LOCALHOST 9150) |}] /\
+  oracle_hist w_f5_tor w_f5_ops (run w_f5_tor w_f5_ops []) = true.
+Proof. repeat split; vm_compute; reflexivity. Qed.
+
+(* the same request to TorConfig.create_socks_endpoint (the seeded change C18-s2 broke this) is served
+   from the existing line without a SETCONF *)
+Lemma full_line_request_cfg :
+  run w_f5_tor [mkop ACfgCreate (Some (tx "9150 IPv6Traffic PreferIPv6")) true] []
+  = [{| sent := []; out := OEp (EpTcp LOCALHOST 9150) |}].
+Proof. vm_compute. reflexivity. Qed.
 
 (* the inputs on which the three repaired defects showed: the oracle now holds on them *)
 Definition w_f1_tor : tor := {| sp := RDefault; dflt := [] |}.
